@@ -404,7 +404,9 @@ func checkParse(c *parseCase, o *pt.Obs) error {
 	// varies from call to call, so they are parsed more often.
 	repeats := 1
 	if c.Lang == "dsl" || c.Lang == "dslod" {
-		repeats = 5
+		// Go starts the iteration of a small map at a random one of 8 slots: two orders of a
+		// two-key object occur with probability ~5/6 and ~1/6, hence the many repetitions.
+		repeats = 31
 	}
 	timeRel := (c.Lang == "spl" || c.Lang == "pipeql") && timeWords.Match(c.B)
 	if timeRel {
